@@ -252,7 +252,11 @@ def explore(ctx) -> Exploration:
             upswing = kind in ("EIF", "AdEx") and ci % 4 == 3
             cfg = make_cfg(rng, kind, refrac_choice=[0.0, 0.5, 1.0, 2.5, 0.25, 0.125][ci] if ci < 6 else None, upswing=upswing)
             lock = rng.random() < 0.7
-            adapt = kind in ADAPTIVE and rng.random() < 0.7
+            # the explicit `adapt` argument and the module's training mode are drawn independently: `adapt=None` defers to
+            # the mode, an explicit True / False overrides it (the effective flag `adapt` is what the model is told)
+            training = rng.random() < 0.5
+            adapt_arg = rng.choice([True, True, False, False, None]) if kind in ADAPTIVE else None
+            adapt = kind in ADAPTIVE and (training if adapt_arg is None else adapt_arg)
             shape = rng.choice([(3,), (2, 2), (1,), (2, 3)])
             batch = 1 if (kind in ADAPTIVE and adapt) else rng.choice([1, 2, 3])
             n = batch * math.prod(shape)
@@ -271,7 +275,7 @@ def explore(ctx) -> Exploration:
                     neuron.dt = cfg["dt"]
                 else:
                     neuron = build(cfg, shape, batch)
-                neuron.train(adapt)
+                neuron.train(training)
             except Exception as exc:  # noqa: BLE001 — a documented configuration must construct
                 raised(ex, exc, cfg, lock, adapt, shape, batch, None, [], via_dt_setter, "construction")
                 continue
@@ -307,7 +311,7 @@ def explore(ctx) -> Exploration:
                                     inputs[t][e] = aware_input(rng, cfg, vnow[e], adnow[e % nsh] if adnow else [], inputs[t][e])
                         x = torch.tensor(inputs[t]).reshape(batch, *shape)
                         if kind in ADAPTIVE:
-                            s = neuron(x, adapt=adapt, refrac_lock=lock)
+                            s = neuron(x, adapt=adapt_arg, refrac_lock=lock)
                         else:
                             s = neuron(x, refrac_lock=lock)
                         ad = getattr(neuron, adname).clone() if adname else None
@@ -324,6 +328,7 @@ def explore(ctx) -> Exploration:
             ex.count("refrac_t/dt", str(cfg["refracT"] / cfg["dt"]))
             ex.count("lock", str(lock))
             ex.count("adapt", str(adapt))
+            ex.count("adapt-argument/training", f"{adapt_arg}/{training}")
             ex.count("configured", "dt-setter" if via_dt_setter else "constructor")
             ex.count("adaptation-poked", str(poke_at is not None))
             ex.count("inputs", "upswing+state-aware" if upswing else ("state-aware" if aware else "pre-drawn"))
@@ -337,16 +342,17 @@ def explore(ctx) -> Exploration:
                     if poke_at == t:
                         lines.append("setadapt " + ",".join(hx(x) for x in poke_vals[e % math.prod(shape)]))
                     lines.append(f"step {'T' if lock else 'F'} {'T' if adapt else 'F'} {hx(inputs[t][e])}")
-                plan.append((cfg, lock, adapt, shape, batch, e, inputs, clear_at, traj, first, len(lines), poke_at, poke_vals, via_dt_setter))
+                plan.append((cfg, lock, adapt, shape, batch, e, inputs, clear_at, traj, first, len(lines), poke_at, poke_vals, via_dt_setter, adapt_arg, training))
     resp = ctx.run_driver(DRIVER, lines)
     nspk = 0
-    for cfg, lock, adapt, shape, batch, e, inputs, clear_at, traj, a, b, poke_at, poke_vals, via_dt_setter in plan:
+    for cfg, lock, adapt, shape, batch, e, inputs, clear_at, traj, a, b, poke_at, poke_vals, via_dt_setter, adapt_arg, training in plan:
         out = [r for l, r in zip(lines[a:b], resp[a:b]) if l.startswith("step")]
         kind = cfg["kind"]
         case = {"class": kind, "cfg": cfg, "lock": lock, "adapt": adapt, "shape": list(shape), "batch": batch,
                 "element": e, "inputs": [row[e] for row in inputs], "clear_at": clear_at,
                 "configured_through_dt_setter": via_dt_setter, "adaptation_replaced_at": poke_at,
-                "adaptation_replaced_by": (poke_vals[e % math.prod(shape)] if poke_vals else None)}
+                "adaptation_replaced_by": (poke_vals[e % math.prod(shape)] if poke_vals else None),
+                "adapt_argument": adapt_arg, "training_mode": training}
         pidx = e % math.prod(shape)      # adaptation index (shared over batch)
         # ---- code vs code-shaped model
         bad = None
@@ -559,7 +565,8 @@ def replay(ctx, data) -> int:
         neuron.dt = cfg["dt"]
     else:
         neuron = build(cfg, (1,), 1)
-    neuron.train(adapt)
+    adapt_arg = case.get("adapt_argument", adapt)
+    neuron.train(case.get("training_mode", adapt))
     poke_at, poke = case.get("adaptation_replaced_at"), case.get("adaptation_replaced_by")
     traj = []
     with torch.no_grad():
@@ -574,7 +581,7 @@ def replay(ctx, data) -> int:
                 sd[key] = new
                 neuron.load_state_dict(sd)
             x = torch.tensor([[I]])
-            s = neuron(x, adapt=adapt, refrac_lock=lock) if cfg["kind"] in ADAPTIVE else neuron(x, refrac_lock=lock)
+            s = neuron(x, adapt=adapt_arg, refrac_lock=lock) if cfg["kind"] in ADAPTIVE else neuron(x, refrac_lock=lock)
             ad = neuron.threshold_adaptation.clone() if cfg["kind"] in ("ALIF", "GLIF2") else (
                 neuron.current_adaptation.clone() if cfg["kind"] in ("Izhikevich", "AdEx") else None)
             traj.append((s.reshape(-1), neuron.voltage.clone().reshape(-1), neuron.refrac.clone().reshape(-1), ad, neuron.spike.clone().reshape(-1)))
